@@ -176,8 +176,10 @@ impl Lattice {
                 }
             }
         }
+        // EOS is connected to the nodes ending at its start_node, which precedes the end of
+        // the sentence when trailing spaces are ignored.
         let r_node = self.eos.as_ref().unwrap();
-        for l_node in &self.ends[self.len_char()] {
+        for l_node in &self.ends[r_node.start_node] {
             counter.add(r_node.left_id, l_node.right_id, 1);
         }
     }
